@@ -20,6 +20,7 @@ package canon
 //@   ensures [C17] ccd == 8 ==> r0 == "Unknown"
 //@   ensures [C17] ccd == 9 ==> r0 == "Single, Silent"
 //@   ensures [C17] ccd == 10 ==> r0 == "Continuous, Silent"
+//@   ensures [C17] ccd < 0 || ccd > 10 ==> r0 == "Unknown"
 
 // meta/canon/canon.go  (FocusMode)
 //@ func FocusMode.String
@@ -36,6 +37,7 @@ package canon
 //@   ensures [C17] fm == 256 ==> r0 == "AF + MF"
 //@   ensures [C17] fm == 512 ==> r0 == "Movie Snap Focus"
 //@   ensures [C17] fm == 519 ==> r0 == "Movie Servo AF"
+//@   ensures [C17] (fm < 0 || fm > 6) && fm != 16 && fm != 256 && fm != 512 && fm != 519 ==> r0 == "Unknown"
 
 // meta/canon/canon.go  (MeteringMode)
 //@ func MeteringMode.String
@@ -47,6 +49,7 @@ package canon
 //@   ensures [C17] mm == 3 ==> r0 == "Evaluative"
 //@   ensures [C17] mm == 4 ==> r0 == "Partial"
 //@   ensures [C17] mm == 5 ==> r0 == "Center-weighted average"
+//@   ensures [C17] mm < 0 || mm > 5 ==> r0 == ""
 
 // meta/canon/canon.go  (FocusRange)
 //@ func FocusRange.String
@@ -63,6 +66,7 @@ package canon
 //@   ensures [C17] fr == 8 ==> r0 == "Pan Focus"
 //@   ensures [C17] fr == 9 ==> r0 == "Super Macro"
 //@   ensures [C17] fr == 10 ==> r0 == "Infinity"
+//@   ensures [C17] fr < 0 || fr > 10 ==> r0 == ""
 
 // meta/canon/canon.go  (ExposureMode)
 //@ func ExposureMode.String
@@ -77,6 +81,7 @@ package canon
 //@   ensures [C17] em == 6 ==> r0 == "M-Dep"
 //@   ensures [C17] em == 7 ==> r0 == "Bulb"
 //@   ensures [C17] em == 8 ==> r0 == "Flexible-priority AE"
+//@   ensures [C17] em < 0 || em > 8 ==> r0 == ""
 
 // meta/canon/canon.go  (BracketMode)
 //@ func BracketMode.String
@@ -87,6 +92,7 @@ package canon
 //@   ensures [C17] bm == 2 ==> r0 == "FEB"
 //@   ensures [C17] bm == 3 ==> r0 == "ISO"
 //@   ensures [C17] bm == 4 ==> r0 == "WB"
+//@   ensures [C17] bm < 0 || bm > 4 ==> r0 == ""
 
 // meta/canon/canon.go  (AESetting)
 //@ func AESetting.String
@@ -97,6 +103,7 @@ package canon
 //@   ensures [C17] ae == 2 ==> r0 == "AE Lock"
 //@   ensures [C17] ae == 3 ==> r0 == "AE Lock + Exposure Compensation"
 //@   ensures [C17] ae == 4 ==> r0 == "No AE"
+//@   ensures [C17] ae < 0 || ae > 4 ==> r0 == ""
 
 // meta/canon/canon.go  (AFAreaMode)
 //@ func AFAreaMode.String
@@ -116,3 +123,4 @@ package canon
 //@   ensures [C17] caf == 12 ==> r0 == "Flexizone Multi (9 point)"
 //@   ensures [C17] caf == 13 ==> r0 == "Flexizone Single"
 //@   ensures [C17] caf == 14 ==> r0 == "Large Zone AF"
+//@   ensures [C17] caf < 0 || caf == 3 || caf > 14 ==> r0 == ""
